@@ -206,12 +206,12 @@ func (w *World) BuildReplay(o *Obligation, fr *FuncResult) *ReplayResult {
 		}
 		fmt.Fprintf(&sb, "\t%s := %s\n", strings.Join(rs, ", "), call)
 		fmt.Fprintf(&sb, "\tfmt.Printf(\"LZVC-REPLAY returned: %s\\n\", %s)\n", strings.Repeat("%v ", nres), strings.Join(rs, ", "))
-		if clauseGo != "" {
-			fmt.Fprintf(&sb, "\tfunc() {\n\t\tdefer func() {\n\t\t\tif r := recover(); r != nil {\n\t\t\t\tfmt.Println(\"LZVC-REPLAY clause-eval-panic\")\n\t\t\t}\n\t\t}()\n")
-			fmt.Fprintf(&sb, "\t\tif !(%s) {\n\t\t\tfmt.Println(\"LZVC-REPLAY clause-violated\")\n\t\t} else {\n\t\t\tfmt.Println(\"LZVC-REPLAY clause-holds\")\n\t\t}\n\t}()\n", clauseGo)
-		}
 	} else {
 		fmt.Fprintf(&sb, "\t%s\n\tfmt.Println(\"LZVC-REPLAY returned\")\n", call)
+	}
+	if clauseGo != "" {
+		fmt.Fprintf(&sb, "\tfunc() {\n\t\tdefer func() {\n\t\t\tif r := recover(); r != nil {\n\t\t\t\tfmt.Println(\"LZVC-REPLAY clause-eval-panic\")\n\t\t\t}\n\t\t}()\n")
+		fmt.Fprintf(&sb, "\t\tif !(%s) {\n\t\t\tfmt.Println(\"LZVC-REPLAY clause-violated\")\n\t\t} else {\n\t\t\tfmt.Println(\"LZVC-REPLAY clause-holds\")\n\t\t}\n\t}()\n", clauseGo)
 	}
 	sb.WriteString("}\n")
 	rr.TestSrc = sb.String()
